@@ -883,7 +883,9 @@ func (r *c20Rec) owner(b tally.Buckets) int {
 			return j
 		}
 	}
-	return -3
+	// a slice that is none of the callers': the library hands the reporter its private copy of the
+	// specification (since fix F03c); whether its CONTENT is the requested one is specOK's question
+	return -1
 }
 
 // specOK: the buckets handed to the reporter are, element by element, == to the requested ones.
